@@ -8,6 +8,7 @@ from vlib import core
 import props.c06 as c06
 seed = int(sys.argv[1]) if len(sys.argv) > 1 else 1
 rot = int(sys.argv[2]) if len(sys.argv) > 2 else 0
+force = sys.argv[3] if len(sys.argv) > 3 else None   # name of one alternative to apply to every group
 class V:
     def __init__(self): self.notes = []; self.v = []
     def violation(self, key, obj, nofail=False): self.v.append((key, obj))
@@ -20,6 +21,8 @@ def full(tier, s):
 # widen the budget by monkeypatching the constant inside cross_groups through its source
 src = open(c06.__file__).read().replace("budget = 70 if tier == \"quick\" else 400", "budget = 10 ** 9").replace(
     "ALTS[(gi * 3 + seed + int(pid[1:])) % len(ALTS)]", "ALTS[(gi * 3 + seed + int(pid[1:]) + %d) %% len(ALTS)]" % rot)
+if force:
+    src = src.replace("name, alt = ALTS[", "name, alt = [a for a in ALTS if a[0] == %r][0] if True else ALTS[" % force)
 ns = {}
 exec(compile(src, c06.__file__, "exec"), ns)
 v = V()
